@@ -221,13 +221,31 @@ macro_rules! radix {
                     2 | 4 | 16 | 256 => {
                         let mut out = Self::ZERO;
                         let base_digits_per_digit = (digit::$Digit::BITS_U8 / ilog2(radix)) as usize;
+
+                        // leading zeros don't contribute to the value, so they must not count towards the number of digits that need to be stored
+                        let sign_offset = if leading_sign { 1 } else { 0 };
+                        let mut leading_zeros = 0;
+                        while leading_zeros < input_digits_len {
+                            let idx = if BE {
+                                sign_offset + leading_zeros
+                            } else {
+                                buf.len() - 1 - leading_zeros
+                            };
+                            if Self::byte_to_digit::<FROM_STR>(buf[idx]) != 0 {
+                                break;
+                            }
+                            leading_zeros += 1;
+                        }
+                        let input_digits_len = input_digits_len - leading_zeros;
+
                         let full_digits = input_digits_len / base_digits_per_digit as usize;
                         let remaining_digits = input_digits_len % base_digits_per_digit as usize;
                         let radix_u8 = radix as u8;
 
                         if full_digits > N || full_digits == N && remaining_digits != 0 {
-                            let mut i = if leading_sign { 1 } else { 0 };
-                            while i < N * base_digits_per_digit + if leading_sign { 1 } else { 0 } {
+                            let start = if BE { sign_offset + leading_zeros } else { 0 };
+                            let mut i = start;
+                            while i < N * base_digits_per_digit + start {
                                 if Self::byte_to_digit::<FROM_STR>(buf[i]) >= radix_u8 {
                                     return Err(ParseIntError {
                                         kind: IntErrorKind::InvalidDigit,
